@@ -55,7 +55,15 @@ BEGIN {
 	if (act == "divbegin") x = 1 / zero
 	if (act == "exitbegin") exit 4
 	if (act == "srandonly") srand(5)
-	if (usegetline) { if ((getline line < "in1") > 0) obs("getline.in1", line) }
+	if (usegetline) {
+		if ((getline line < "in1") > 0) obs("getline.in1", line)
+		# two more streams read alternately (each scanner has its own buffer)
+		for (gi = 0; gi < 2; gi++) {
+			if ((getline ga < "in2") > 0) obs("getline.in2", ga)
+			if ((getline gb < "in1") > 0) obs("getline.in1b", gb)
+		}
+		if (act == "closecmd") close("in2")
+	}
 	if (usefiles) {
 		printf "%s", "w1" > "out1"
 		print "a" >> "out2"
@@ -82,6 +90,7 @@ BEGIN {
 	if (probe) observe("begin2")
 }
 usename { obs("name", @"a") }
+userec && /s1/, /zz/ { obs("inrange", NR ":" $0) }
 {
 	recs++
 	if (userec) { obs("rec.$0", $0); obs("rec.NF", NF); obs("rec.$1", $1); obs("rec.NR", NR); obs("rec.FNR", FNR); obs("rec.FILENAME", FILENAME) }
@@ -138,6 +147,8 @@ type c14Run struct {
 	Chars        bool `json:"chars,omitempty"`
 	CRLF         bool `json:"crlf,omitempty"`
 	NoArgVars    bool `json:"noargvars,omitempty"`
+	// EnvNil: Config.Environ is nil (the interpreter loads the process environment itself)
+	EnvNil bool `json:"env_nil,omitempty"`
 
 	// Ctx: "" = Execute; "never" = ExecuteContext never cancelled; "pre" = already cancelled;
 	// "step" = cancelled by the simulator before VM step CancelStep; "deadline" = same with DeadlineExceeded
@@ -258,7 +269,7 @@ func c14Exec(it *interp.Interpreter, run *c14Run, log *core.Log, shared *core.Si
 		Chars: run.Chars, OpenFile: fs.Open, ShellCommand: []string{simshPath(), "-"},
 		Environ: run.Environ, NewlineOutput: interp.RawNewlineMode,
 	}
-	if cfg.Environ == nil {
+	if cfg.Environ == nil && !run.EnvNil {
 		cfg.Environ = []string{}
 	}
 	if run.CRLF {
@@ -450,6 +461,7 @@ func c14GenRun(r *core.Rand, resetVars, resetRand bool, children bool) c14Run {
 	run.Chars = r.Chance(1, 6)
 	run.CRLF = r.Chance(1, 8)
 	run.NoArgVars = r.Chance(1, 8)
+	run.EnvNil = r.Chance(1, 8)
 	switch r.Intn(10) {
 	case 0, 1:
 		run.Ctx = "never"
@@ -470,7 +482,7 @@ func c14GenRun(r *core.Rand, resetVars, resetRand bool, children bool) c14Run {
 		run.OutFailAt = r.Intn(60)
 	}
 	run.BadVars = r.Chance(1, 25)
-	if r.Chance(1, 4) {
+	if r.Chance(1, 4) && !run.EnvNil {
 		run.Environ = []string{"HOME", "/h", "E" + fmt.Sprint(r.Intn(3)), "v"}
 	}
 	if resetVars && r.Chance(1, 5) {
@@ -636,6 +648,7 @@ func (c14Engine) Shrink(scAny any) []any {
 			{run.NoExec, func(r *c14Run) { r.NoExec = false }}, {run.NoFileWrites, func(r *c14Run) { r.NoFileWrites = false }},
 			{run.NoFileReads, func(r *c14Run) { r.NoFileReads = false }}, {run.Chars, func(r *c14Run) { r.Chars = false }},
 			{run.CRLF, func(r *c14Run) { r.CRLF = false }}, {run.NoArgVars, func(r *c14Run) { r.NoArgVars = false }},
+			{run.EnvNil, func(r *c14Run) { r.EnvNil = false }},
 			{run.OutFail, func(r *c14Run) { r.OutFail = false }}, {run.BadVars, func(r *c14Run) { r.BadVars = false }},
 			{run.BadSep, func(r *c14Run) { r.BadSep = false }}, {run.Header, func(r *c14Run) { r.Header = false }},
 			{run.Ctx != "", func(r *c14Run) { r.Ctx = "" }}, {run.InputMode != "", func(r *c14Run) { r.InputMode, r.Header, r.CSVSep, r.BadSep = "", false, "", false }},
